@@ -27,7 +27,20 @@ func (c *Configurations) AcceptConfig(conn *net.Conn) error {
 	err = conn.WritePacket(pk.Marshal(
 		packetid.ClientboundConfigFinishConfiguration,
 	))
-	return err
+	if err != nil {
+		return err
+	}
+	// The client acknowledges the end of the configuration state. Whatever else it sends in this
+	// state (client information, plugin messages) comes before that and is of no interest here.
+	var p pk.Packet
+	for {
+		if err := conn.ReadPacket(&p); err != nil {
+			return err
+		}
+		if packetid.ServerboundPacketID(p.ID) == packetid.ServerboundConfigFinishConfiguration {
+			return nil
+		}
+	}
 }
 
 type ConfigFailErr struct {
